@@ -297,12 +297,23 @@ def audit(ctx, rng, count, nsett):
             k = rng.choice([1, 2])
             f = rm.sig_leaf([[F(0), F(0)], [F(4 * k), F(0)], [F(-2 * k), F(2 * k)], [F(k), F(k)]],
                             [F(rng.choice([1, 2, 3])), F(rng.choice([1, 2])), F(rng.choice([1, 2])), F(-1, rng.choice([1, 2]))])
+        elif t % 8 == 2:
+            # linearly INDEPENDENT exponent differences around the constant-free negative term: a e^{2x} + b e^{2y} - c e^{x} (+ d): the
+            # cover of an AGE cone can then be emptied by the kernel-basis rule alone (trivial kernel), which the options that look at
+            # what the OTHER cones can reach (forced equality) must see
+            k = rng.choice([1, 2])
+            rows = [[F(2 * k), F(0)], [F(0), F(2 * k)], [F(k), F(0)]]
+            cs = [F(rng.choice([1, 2])), F(rng.choice([1, 2, 3])), F(-1, rng.choice([1, 2]))]
+            if rng.random() < 0.4:
+                rows.append([F(0), F(0)])
+                cs.append(F(rng.choice([1, 2])))
+            f = rm.sig_leaf(rows, cs)
         else:
             f = rm.gen_sig(rng, m=rng.randint(3, 5))
         two_neg = t % 8 in (3, 7, 1)           # (also the ill-scaled family gets the cover- and kernel-reading options every time)
         n = f['n']
         box = None
-        if rng.random() < 0.45 and t % 8 not in (1, 3, 5):
+        if rng.random() < 0.45 and t % 8 not in (1, 2, 3, 5):
             box = rm.gen_box(rng, n) if rng.random() < 0.6 else {'lin': [[[common.frac_str(F(rng.randint(-1, 1))) for _ in range(n)], '0']]}
             if 'lin' in box and all(F(a) == 0 for a in box['lin'][0][0]):
                 box['lin'][0][0][0] = '1'
@@ -315,6 +326,12 @@ def audit(ctx, rng, count, nsett):
             # the options that read the covers of OTHER terms: always part of the sample for these instances
             setts = [sm.DEFAULTS, dict(sm.DEFAULTS, sum_age_force_equality=True), dict(sm.DEFAULTS, kernel_basis=True),
                      dict(sm.DEFAULTS, sum_age_force_equality=True, presolve_trivial_age_cones=True)] + setts[1:nsett - 3]
+        if t % 8 == 2:
+            form = 'primal'
+            if nsett < 32:
+                setts = [sm.DEFAULTS, dict(sm.DEFAULTS, kernel_basis=True, sum_age_force_equality=True),
+                         dict(sm.DEFAULTS, kernel_basis=True, sum_age_force_equality=True, presolve_trivial_age_cones=True),
+                         dict(sm.DEFAULTS, kernel_basis=True), dict(sm.DEFAULTS, sum_age_force_equality=True)] + setts[1:nsett - 4]
         base_s = dict(sm.DEFAULTS)
         base_s['heuristic_reduction'] = False          # the reference: no heuristic, no presolve
         audit_case(ctx, rng, case, form, setts)
